@@ -11,7 +11,13 @@ UNI = 'éÉßäÄöÖñÑçÇωΩжЖдДøØåÅ'      # one-to-one case mappin
 def name(rng):
     n = rng.randint(1, 8)
     alpha = ASCII + (UNI if rng.random() < 0.4 else '')
-    return ''.join(rng.choice(alpha) for _ in range(n))
+    s = ''.join(rng.choice(alpha) for _ in range(n))
+    if rng.random() < 0.15:
+        # a per-cent sign in the role name: written `%%` in the check, one `%` in X (seeded change C04-A7)
+        for _ in range(rng.choice([1, 1, 2])):
+            k = rng.randrange(len(s) + 1)
+            s = s[:k] + rng.choice(['%', '%', '%%']) + s[k:]
+    return s
 
 
 def variant(rng, s):
@@ -36,6 +42,8 @@ def run(ctx, rep):
             roles.insert(ctx.rng.randrange(len(roles) + 1), variant(ctx.rng, x))
         elif ctx.rng.random() < 0.3 and x:
             roles.append(x[:-1] if len(x) > 1 else x + 'q')      # near miss
+        if '%' in x and ctx.rng.random() < 0.5:
+            roles.append(variant(ctx.rng, x.replace('%', '%%')))  # decoy: the escaped spelling is a different role name
         placeholder = ctx.rng.random() < 0.4
         target = {'other': 'zz'}
         two = False
@@ -84,7 +92,8 @@ def run(ctx, rep):
             want = False
             rep.stat('missing_key')
         else:
-            xs = m.replace('%(rk)s', str(tgt.get('rk'))).replace('%(net:tenant-id/2)s', str(tgt.get('net:tenant-id/2'))).replace('%%', '%')
+            # `%%` in the check text is one per-cent sign; substituted values are taken as they are
+            xs = m.replace('%%', '\0').replace('%(rk)s', str(tgt.get('rk'))).replace('%(net:tenant-id/2)s', str(tgt.get('net:tenant-id/2'))).replace('\0', '%')
             if 'roles' not in creds:
                 want = False
                 rep.stat('no_roles')
